@@ -1066,6 +1066,108 @@ def _diff(m, i):
     return [path, m], [path, i]
 
 
+# ------------------------------------------------------------------ hand-made namespaces with case-insensitive sets (oracle only)
+
+CI_NAMES = ["a", "A", "ab", "aB", "AB", "b", "zz", "Zz"]
+
+
+def ci_history(seed: int, length: int) -> List[List[Any]]:
+    rng = random.Random(f"C01ci:{seed}")
+    ops = []
+    for _ in range(length):
+        r = rng.random()
+        if r < 0.35:
+            ops.append(["add", rng.randrange(2), rng.randrange(6), rng.choice(CI_NAMES)])
+        elif r < 0.5:
+            ops.append(["remove", rng.randrange(6)])
+        elif r < 0.85:
+            ops.append(["rename", rng.randrange(6), rng.choice(CI_NAMES)])
+        else:
+            ops.append(["discard", rng.randrange(2), rng.randrange(6)])
+    return ops
+
+
+def check_ci(ops: List[List[Any]]) -> Optional[C.Failing]:
+    """`NamespaceSet(parent, [("id_short", False)])` — the case-insensitive flavour of the public API, in a namespace with two such
+    sets.  The Lean model covers the SDK's own (case-sensitive) classes; here the same containment statement is checked against a
+    plain reference: a map from the ASCII-upper-cased idShort to the element, per namespace."""
+    from basyx.aas import model
+
+    class CiNamespace(model.UniqueIdShortNamespace):
+        def __init__(self):
+            super().__init__()
+            self.sets = [model.NamespaceSet(self, [("id_short", False)]), model.NamespaceSet(self, [("id_short", False)])]
+    ns = CiNamespace()
+    els = [model.Property(None, model.datatypes.Int) for _ in range(6)]
+    where: Dict[int, int] = {}            # element handle -> set index
+
+    def snapshot():
+        return ([[id(x) for x in st] for st in ns.sets], [(e.id_short, e.parent is ns) for e in els])
+
+    def fail(sig, what, oi):
+        return C.Failing("ns:ci:" + sig, what, ["ci", ops[: oi + 1]])
+    for oi, op in enumerate(ops):
+        before = snapshot()
+        raised = None
+        try:
+            if op[0] == "add":
+                if op[2] not in where:
+                    e = els[op[2]]
+                    if e.parent is None:
+                        e.id_short = op[3]
+                    ns.sets[op[1]].add(e)
+                    where[op[2]] = op[1]
+            elif op[0] == "remove":
+                if op[1] in where:
+                    ns.sets[where[op[1]]].remove(els[op[1]])
+                    del where[op[1]]
+            elif op[0] == "discard":
+                ns.sets[op[1]].discard(els[op[2]])
+                if where.get(op[2]) == op[1]:
+                    del where[op[2]]
+            else:
+                els[op[1]].id_short = op[2]
+        except Exception as e:
+            raised = e
+        if raised is not None:
+            if snapshot() != before and not (op[0] == "add" and els[op[2]].parent is None and before[1][op[2]][1] is False
+                                             and [x for x in snapshot()[0]] == before[0]):
+                return fail(f"{op[0]}:raised:not-atomic", f"{op} raised {type(raised).__name__} but changed the namespace or the element", oi)
+        # the views agree, whatever happened
+        seen_upper: Dict[str, int] = {}
+        for si, st in enumerate(ns.sets):
+            items = list(st)
+            if len(items) != len(st):
+                return fail("len-vs-iter", f"set {si}: len()={len(st)}, iteration yields {len(items)}", oi)
+            for x in items:
+                h = els.index(x)
+                if x.parent is not ns:
+                    return fail("member-parent", f"set {si} contains element {h} whose parent is not the namespace", oi)
+                if where.get(h) != si:
+                    return fail("membership", f"set {si} contains element {h}; expected sets: {where}", oi)
+                up = x.id_short.upper()
+                if up in seen_upper:
+                    return fail("duplicate-name", f"elements {seen_upper[up]} and {h} carry the same idShort (ignoring case)", oi)
+                seen_upper[up] = h
+                for variant in (x.id_short, x.id_short.lower(), x.id_short.upper()):
+                    if not st.contains_id("id_short", variant):
+                        return fail("contains_id-misses-member", f"set {si}: contains_id({variant!r}) is False for member {x.id_short!r}", oi)
+                    try:
+                        if st.get_object_by_attribute("id_short", variant) is not x:
+                            return fail("lookup-other", f"set {si}: lookup of {variant!r} is not the member {x.id_short!r}", oi)
+                    except KeyError:
+                        return fail("lookup-misses-member", f"set {si}: lookup of {variant!r} raises for member {x.id_short!r}", oi)
+                if x not in st:
+                    return fail("contains-vs-iter", f"set {si}: `in` is False for an element the iteration yields", oi)
+        for h, e in enumerate(els):
+            if (e.parent is ns) != (h in where) or (h in where and e not in ns.sets[where[h]]):
+                return fail("parent-without-membership", f"element {h}: parent link and membership disagree", oi)
+        for nm in CI_NAMES:
+            if nm.upper() not in seen_upper and any(st.contains_id("id_short", nm) for st in ns.sets):
+                return fail("contains_id-phantom", f"contains_id({nm!r}) is True although no member carries that idShort", oi)
+    return None
+
+
 def oracle(ctx: C.Ctx, cov: C.Coverage) -> List[C.Failing]:
     """The oracle watched every call of the correspondence run (same histories); when that run did not happen (driver
     broken) the histories are generated again here."""
@@ -1088,6 +1190,12 @@ def oracle(ctx: C.Ctx, cov: C.Coverage) -> List[C.Failing]:
         if f.sig not in sigs:
             sigs.add(f.sig)
             out.append(minimise(f))
+    for k in range(120 if ctx.tier == "quick" else 2000):
+        f = check_ci(ci_history(ctx.seed * 100003 + k, 25))
+        if f and f.sig not in sigs:
+            sigs.add(f.sig)
+            f.case = ["ci", C.ddmin(f.case[1], lambda o, f=f: (lambda g: g is not None and g.sig == f.sig)(check_ci(o)))]
+            out.append(f)
     cov.extra["oracle_failures_seen"] = len(fails)
     return out
 
@@ -1115,4 +1223,6 @@ def search(ctx: C.Ctx, disagreements, broken) -> List[C.Failing]:
 
 
 def replay(case) -> Optional[C.Failing]:
+    if isinstance(case, list) and len(case) == 2 and case[0] == "ci":
+        return check_ci(case[1])
     return check_history(case)
